@@ -7,6 +7,8 @@ import c13
 import c15
 
 WITNESSES = ['W1SoftDeletePrivate', 'W2EntryUpdatePrivate', 'W3GetRefShared', 'W5InternalsUnreachable']
+from iters import elem_loops, parse_iter, ELEM
+
 LEVEL = "other"
 EXPLANATION = ("Necessary structure of 'reads return only the current value of the key': every public read variant "
                "reaches the value store only through lookup functions that perform exactly one lookup per call, "
@@ -34,7 +36,7 @@ def run(ctx):
     for f, bb, t in S.lookup_sites:
         if f.rec.get("ret", "").startswith("std::option::Option<") and dashmap_call(t)[0] == "get":
             readers.setdefault(f.name, []).append((f, bb, t))
-    ctx.floor("R02.3", "value-returning store lookup functions", len(readers), 2)
+    ctx.floor("R02.3", "value-returning store lookup functions", len(readers), 1)
     for name, sites in sorted(readers.items()):
         f = sites[0][0]
         ctx.touch(f)
@@ -84,6 +86,10 @@ def run(ctx):
                     continue
                 k = peel_identity(f.op_origin(t["args"][1]))
                 own_key = k == ("param", 2)
+                if not own_key and k[0] == "field" and k[1][0] == "variant" and k[1][2] == "Some" and is_call_to(k[1][1], "::next") and k[1][1][2]:
+                    # `for key in keys { .. self.get(key) .. }`: an element of the caller's own key list (pairing checked below)
+                    src = parse_iter(k[1][1][2][0]) or []
+                    own_key = len(src) == 1 and src[0][0] == "all" and strip_site(src[0][1]) == ("param", 2)
                 from_list = mentions(k, lambda s: s[0] == "field" and s[2] == "keys")
                 if f.rec.get("impl_trait") == "std::iter::Iterator":
                     ctx.check(from_list, "R02.2", "%s|key-from-own-list" % f.name, "the iterator looks up a key taken from its own key list", f.where(bb), fmt(k))
@@ -100,6 +106,23 @@ def run(ctx):
                     if r[0] == "agg" and r[1] == "tuple":
                         ok = ok and r[3][0][1] == ("param", 2) and strip_site(r[3][1][1]) == strip_site(c.origin_call(bb, t))
                     ctx.check(ok, "R02.2", "%s|pairs-key-with-its-own-value" % c.name, "each key is paired with the value read for that same key", c.where(bb), fmt(r))
+    # the same pairing written as a loop: `for key in keys { map.insert(key, self.get(key)) }`
+    for f in reads:
+        if f.rec.get("impl_trait") == "std::iter::Iterator":
+            continue
+        for EL in elem_loops(F, f, stop=lambda n: n in read_names or n in readers):
+            if EL.sink != "for" or EL.over_all(lambda c_: strip_site(c_) == ("param", 2)) is None:
+                continue
+            k_ = EL.over_all(lambda c_: strip_site(c_) == ("param", 2))
+            okp, n_reads = True, 0
+            for q in EL.bodies or []:
+                rs = q.calls(read_names)
+                for e in rs:
+                    n_reads += 1
+                    ins = [x for x in q.events if x.generic.endswith("HashMap::<K, V, S>::insert") or x.generic.endswith("::insert")]
+                    okp = okp and e.args[1] == ELEM(k_) and any(x.args[1] == ELEM(k_) and strip_site(x.args[2]) == strip_site(e.res) for x in ins)
+            if n_reads:
+                ctx.check(okp, "R02.2", "%s|pairs-key-with-its-own-value" % f.name, "each key is paired with the value read for that same key", EL.where())
     # iterator: index read == index removed
     for f in reads:
         if f.rec.get("impl_trait") != "std::iter::Iterator":
@@ -183,7 +206,7 @@ def run(ctx):
                         ok = bool(kdv) and val[0] == "field" and strip_site(val[1]) == strip_site(kdv[0])
                         ctx.check(ok, "R02.5", "%s|key-and-value-from-same-command|%s" % (W.name, kdv[0][2] if kdv else "?"),
                                   "the key description and the value handed to the put handler are payloads of the same dequeued command", W.where(b))
-    ctx.floor("R02.5", "put handler invocations in the worker", n_prov, 2)
+    ctx.floor("R02.5", "put handler invocations in the worker", n_prov, 1)
     for fname in sorted(S.insert_fns):
         g = F.fn(fname)
         for h, bb, t in [(h, bb, t) for n, h in F.fns.items() for bb, t in h.calls() if t.get("rpath") == fname]:
